@@ -21,7 +21,7 @@ def index(left: Sequence[object], obj: object) -> object:
     """
     try:
         return left.index(obj)
-    except ValueError:
+    except (ValueError, AttributeError):
         return None
 
 
